@@ -113,6 +113,14 @@ fn parse_host_header<'a>(base_domain: &'a str, host: &'a str) -> Option<VirtualH
     None
 }
 
+/// The bucket named by a valid host that is not under any base domain: the host name itself, in lower case.
+///
+/// A `Host` value is `uri-host [ ":" port ]` (RFC 9110 section 7.2); the port is not part of the name.
+fn bucket_of_host(host: &str) -> String {
+    let name = host.split_once(':').map_or(host, |(name, _port)| name);
+    name.to_ascii_lowercase()
+}
+
 #[derive(Debug)]
 pub struct SingleDomain {
     base_domain: String,
@@ -143,8 +151,7 @@ impl S3Host for SingleDomain {
         }
 
         if is_valid_domain(host) {
-            let bucket = host.to_ascii_lowercase();
-            return Ok(VirtualHost::with_bucket(host, bucket));
+            return Ok(VirtualHost::with_bucket(host, bucket_of_host(host)));
         }
 
         Err(s3_error!(InvalidRequest, "Invalid host header"))
@@ -207,8 +214,7 @@ impl S3Host for MultiDomain {
         }
 
         if is_valid_domain(host) {
-            let bucket = host.to_ascii_lowercase();
-            return Ok(VirtualHost::with_bucket(host, bucket));
+            return Ok(VirtualHost::with_bucket(host, bucket_of_host(host)));
         }
 
         Err(s3_error!(InvalidRequest, "Invalid host header"))
@@ -269,6 +275,30 @@ mod tests {
         let result = MultiDomain::new(&domains);
         let err = result.unwrap_err();
         assert!(matches!(err, DomainError::ZeroDomains));
+    }
+
+    #[test]
+    fn host_outside_base_domains() {
+        let sd = SingleDomain::new("s3.us-west-1.amazonaws.com").unwrap();
+        let md = MultiDomain::new(["example.org", "example.net:9000"]).unwrap();
+
+        // the port of the Host value is not part of the bucket
+        for s3_host in [&sd as &dyn S3Host, &md as &dyn S3Host] {
+            let vh = s3_host.parse_host_header("Static.Example.com:8080").unwrap();
+            assert_eq!(vh.domain(), "Static.Example.com:8080");
+            assert_eq!(vh.bucket(), Some("static.example.com"));
+
+            let vh = s3_host.parse_host_header("static.example.com").unwrap();
+            assert_eq!(vh.bucket(), Some("static.example.com"));
+        }
+
+        // a base domain with a port is matched as a whole
+        let vh = md.parse_host_header("bucket.example.net:9000").unwrap();
+        assert_eq!(vh.domain(), "example.net:9000");
+        assert_eq!(vh.bucket(), Some("bucket"));
+
+        let vh = md.parse_host_header("bucket.example.net:9001").unwrap();
+        assert_eq!(vh.bucket(), Some("bucket.example.net"));
     }
 
     #[test]
